@@ -16,6 +16,7 @@ import (
 	"diagonal.works/b6"
 	"diagonal.works/b6/geojson"
 	"diagonal.works/b6/ingest"
+	"github.com/golang/geo/r3"
 	"github.com/golang/geo/s2"
 	"verifharness/hx"
 )
@@ -261,6 +262,79 @@ func ring(r *hx.Rand, lat0, lng0 int64, radius float64, n int) []pos {
 	return ps
 }
 
+// bigRing: a nearly regular star-shaped ring of angular radius theta (degrees, 0.9..1.0 of it per vertex) around
+// (lat0,lng0), laid out on the sphere (great-circle destination formula), positions rounded to E7. theta < 90:
+// the ring bounds a cap-like region around the centre; theta > 90: around the antipode (the ring "wound
+// backwards" around the centre covers more than half the sphere).
+func bigRing(r *hx.Rand, lat0, lng0 int64, theta float64, n int) []pos {
+	ps := make([]pos, n)
+	phi1, lam1 := deg(lat0)*math.Pi/180, deg(lng0)*math.Pi/180
+	phase := float64(r.Intn(360)) * math.Pi / 180
+	for i := range ps {
+		beta := phase + 2*math.Pi/float64(n)*(float64(i)+0.1*(float64(r.Intn(200))/100-1))
+		delta := theta * (0.9 + 0.1*float64(r.Intn(1000))/1000) * math.Pi / 180
+		var lat, lng float64
+		for {
+			sinLat := math.Sin(phi1)*math.Cos(delta) + math.Cos(phi1)*math.Sin(delta)*math.Cos(beta)
+			lat = math.Asin(sinLat)
+			lng = lam1 + math.Atan2(math.Sin(beta)*math.Sin(delta)*math.Cos(phi1), math.Cos(delta)-math.Sin(phi1)*sinLat)
+			if math.Abs(lat) < 88*math.Pi/180 {
+				break
+			}
+			beta += 0.05 // keep clear of the poles
+		}
+		lngDeg := math.Mod(lng*180/math.Pi+540, 360) - 180
+		if lngDeg > 179.9 {
+			lngDeg = 179.9
+		} else if lngDeg < -179.9 {
+			lngDeg = -179.9
+		}
+		ps[i] = pos{e7(lat * 180 / math.Pi), e7(lngDeg)}
+	}
+	if r.Bool() {
+		for i, j := 0, len(ps)-1; i < j; i, j = i+1, j-1 {
+			ps[i], ps[j] = ps[j], ps[i]
+		}
+	}
+	if r.Chance(3, 4) {
+		ps = append(ps, ps[0])
+	}
+	return ps
+}
+
+// sizedPolygon: polygons from a few metres to more than half the sphere. The small classes (planar star rings,
+// possibly with holes) take their centre as given; the spherical ones sit near the equator.
+func sizedPolygon(c *hx.Ctx, lat0, lng0 int64, allowBig bool) [][]pos {
+	r := c.Rand
+	k := r.Intn(10)
+	if !allowBig && k >= 6 {
+		k = r.Intn(6)
+	}
+	switch {
+	case k == 0:
+		c.Note("polygon-size:tiny(metres)")
+		return [][]pos{ring(r, lat0, lng0, float64(60+r.Intn(600)), 3+r.Intn(5))}
+	case k <= 3:
+		c.Note("polygon-size:city")
+		return randPolygon(c, lat0, lng0, float64(10000+r.Intn(2000000)))
+	case k <= 5:
+		c.Note("polygon-size:country")
+		return randPolygon(c, lat0/2, lng0*8/10, float64(10000000+r.Intn(60000000)))
+	}
+	clat, clng := int64(r.Intn(400000001))-200000000, lng0
+	switch k {
+	case 6:
+		c.Note("polygon-size:continent")
+		return [][]pos{bigRing(r, clat, clng, 15+float64(r.Intn(30)), 6+r.Intn(6))}
+	case 7, 8:
+		c.Note("polygon-size:near-hemisphere(area in (pi,2pi))")
+		return [][]pos{bigRing(r, clat, clng, 72+float64(r.Intn(17)), 8+r.Intn(6))}
+	default:
+		c.Note("polygon-size:more-than-hemisphere-as-drawn")
+		return [][]pos{bigRing(r, clat, clng, 101+float64(r.Intn(30)), 8+r.Intn(6))}
+	}
+}
+
 func randPolygon(c *hx.Ctx, lat0, lng0 int64, radius float64) [][]pos {
 	r := c.Rand
 	nh := 0
@@ -312,7 +386,7 @@ func randGeom(c *hx.Ctx, weird bool) geom {
 		if p.lat > 600000000 || p.lat < -600000000 {
 			p.lat /= 2
 		}
-		g.rings = randPolygon(c, p.lat, p.lng, float64(10000+r.Intn(2000000)))
+		g.rings = sizedPolygon(c, p.lat, p.lng, true)
 		if weird && r.Chance(1, 25) {
 			g.rings = append(g.rings, []pos{})
 			c.Note("degenerate:empty-ring")
@@ -326,6 +400,14 @@ func randGeom(c *hx.Ctx, weird bool) geom {
 			p.lng -= 100000000
 		}
 		radius := float64(10000 + r.Intn(1000000))
+		switch r.Intn(5) {
+		case 0:
+			radius = float64(60 + r.Intn(600)) // metres
+		case 1:
+			radius = float64(10000000 + r.Intn(40000000)) // countries
+			p.lat /= 2
+			p.lng /= 4
+		}
 		g.polys = make([][][]pos, r.Intn(4))
 		for i := range g.polys {
 			g.polys[i] = randPolygon(c, p.lat, p.lng+int64(float64(i)*3*radius), radius)
@@ -636,7 +718,23 @@ func found(f b6.Feature) string {
 			ps := make([]string, a.Len())
 			for i := range ps {
 				var ls []string
+				// which side of its rings the polygon is: the normalised vertex sum of the first outer loop lies
+				// inside the smaller of the two regions a (nearly regular) ring bounds; a polygon that does not
+				// hold it is the complement of what was drawn - that loop is then flagged 2 instead of 0
+				wrongSide := false
 				for _, l := range a.Polygon(i).Loops() {
+					if !l.IsHole() {
+						var sum r3.Vector
+						for j := 0; j < l.NumVertices(); j++ {
+							sum = sum.Add(l.Vertex(j).Vector)
+						}
+						if sum.Norm() > 1e-9 {
+							wrongSide = !l.ContainsPoint(s2.Point{Vector: sum.Normalize()}) // the loop's own interior: holes do not matter
+						}
+						break
+					}
+				}
+				for li, l := range a.Polygon(i).Loops() {
 					vs := make([]string, l.NumVertices())
 					for j := range vs {
 						vs[j] = latlng(l.Vertex(j))
@@ -644,6 +742,8 @@ func found(f b6.Feature) string {
 					h := 0
 					if l.IsHole() {
 						h = 1
+					} else if wrongSide && li == 0 {
+						h = 2
 					}
 					ls = append(ls, fmt.Sprintf("[%d,[%s]]", h, strings.Join(vs, ",")))
 				}
@@ -722,6 +822,13 @@ func corpus(c *hx.Ctx) {
 		{geom{typ: "Point", pt: p1}, map[string]string{"a": "b"}},
 		{geom{typ: "MultiLineString", rings: [][]pos{{p1, p2}}}, map[string]string{}},
 	})
+	// seeded C32-5: rings that cover between a quarter and a half of the sphere (area in (pi, 2pi)), either
+	// winding, and one that covers more than half as drawn: the imported polygon is the smaller side
+	importOp(c, []feature{{geom{typ: "Polygon", rings: [][]pos{{{-500000000, -800000000}, {-500000000, 800000000}, {500000000, 800000000}, {500000000, -800000000}, {-500000000, -800000000}}}}, nil}})
+	importOp(c, []feature{{geom{typ: "Polygon", rings: [][]pos{{{500000000, -800000000}, {500000000, 800000000}, {-500000000, 800000000}, {-500000000, -800000000}}}}, nil}})
+	importOp(c, []feature{{geom{typ: "Polygon", rings: [][]pos{bigRing(c.Rand, 100000000, 200000000, 80, 10)}}, nil},
+		{geom{typ: "Polygon", rings: [][]pos{bigRing(c.Rand, -50000000, -300000000, 110, 12)}}, nil},
+		{geom{typ: "MultiPolygon", polys: [][][]pos{{bigRing(c.Rand, 0, 0, 80, 9)}}}, nil}})
 	// fixed (fixes/C32-reserved-property-keys.patch; was finding reserved-property-key): a property named point on a
 	// LineString aborted the import, on a Point it was shadowed by the geometry tag
 	importOp(c, []feature{{geom{typ: "LineString", line: []pos{p1, p2}}, map[string]string{"point": "zz"}}})
@@ -745,8 +852,8 @@ func corpus(c *hx.Ctx) {
 func main() {
 	_ = sort.Strings
 	hx.Main(hx.Family{
-		Name: "c32",
-		Rule: "per case: 3 geom ops (marshal + both decoders) on random geometries of the six types, 2 bits ops (full-precision float64 coordinates - random mantissas, any finite bit pattern, tiny values, E7 values plus last-place noise, 0.1+0.2, -0, subnormals - compared by math.Float64bits after the JSON round trip), 2 parse ops on harness-written JSON (wrong arity, depth, type), one feature-collection round trip and one import of 1-6 features (star-shaped polygons with 0-3 holes, random orientation, rings closed 3/4 of the time; 1/12 of the features carry a reserved property key; rare degenerate line strings / empty rings) into an empty world, every index read back. Coordinates are E7 integers. Non-trivial = the import holds a polygon with a hole and at least 3 features; distinct = by hash of the op text",
+		Name:     "c32",
+		Rule:     "per case: 3 geom ops (marshal + both decoders) on random geometries of the six types, 2 bits ops (full-precision float64 coordinates - random mantissas, any finite bit pattern, tiny values, E7 values plus last-place noise, 0.1+0.2, -0, subnormals - compared by math.Float64bits after the JSON round trip), 2 parse ops on harness-written JSON (wrong arity, depth, type), one feature-collection round trip and one import of 1-6 features (star-shaped polygons with 0-3 holes from a few metres to countries, single spherical rings of continent size, of area in (pi,2pi) and of more than half the sphere as drawn, random orientation, rings closed 3/4 of the time; the side of the rings the imported polygon lies on is probed; 1/12 of the features carry a reserved property key; rare degenerate line strings / empty rings) into an empty world, every index read back. Coordinates are E7 integers. Non-trivial = the import holds a polygon with a hole and at least 3 features; distinct = by hash of the op text",
 		Quick:    2500,
 		Thorough: 40000,
 		Corpus:   corpus,
